@@ -177,6 +177,129 @@ func init() {
 			x.defStrList("envKeys", envKeys)
 			x.defStrList("serviceConfigBuildCalls", callSrcs(sc, "r.build"))
 		}
+		// ---- no state between calls: struct fields, writes through the receiver, what the methods read ------
+		structFields := func(name string) []string {
+			out := []string{}
+			found := false
+			for _, f := range x.files(dir) {
+				for _, d := range f.Decls {
+					gd, ok := d.(*ast.GenDecl)
+					if !ok || gd.Tok != token.TYPE {
+						continue
+					}
+					for _, sp := range gd.Specs {
+						ts := sp.(*ast.TypeSpec)
+						st, ok := ts.Type.(*ast.StructType)
+						if !ok || ts.Name.Name != name {
+							continue
+						}
+						found = true
+						for _, fl := range st.Fields.List {
+							if len(fl.Names) == 0 {
+								out = append(out, "embedded "+x.src(fl.Type))
+							}
+							for _, n := range fl.Names {
+								out = append(out, n.Name+" "+x.src(fl.Type))
+							}
+						}
+					}
+				}
+			}
+			if !found {
+				x.fail("%s: struct %s not found", dir, name)
+			}
+			return out
+		}
+		x.defStrList("monitorFields", structFields("ServiceMonitor"))
+		x.defStrList("routecmdFields", structFields("routecmd"))
+		// methods of ServiceMonitor / routecmd, writes through their receivers, selectors read through them
+		var monMethods, recvWrites, pkgVars []string
+		reads := map[string][]string{}
+		for _, f := range x.files(dir) {
+			for _, d := range f.Decls {
+				switch dd := d.(type) {
+				case *ast.GenDecl:
+					if dd.Tok == token.VAR {
+						for _, sp := range dd.Specs {
+							for _, n := range sp.(*ast.ValueSpec).Names {
+								pkgVars = append(pkgVars, n.Name)
+							}
+						}
+					}
+				case *ast.FuncDecl:
+					if dd.Recv == nil || len(dd.Recv.List) != 1 || len(dd.Recv.List[0].Names) != 1 || dd.Body == nil {
+						continue
+					}
+					t := dd.Recv.List[0].Type
+					if st, ok := t.(*ast.StarExpr); ok {
+						t = st.X
+					}
+					id, ok := t.(*ast.Ident)
+					if !ok || (id.Name != "ServiceMonitor" && id.Name != "routecmd") {
+						continue
+					}
+					recv := dd.Recv.List[0].Names[0].Name
+					if id.Name == "ServiceMonitor" {
+						monMethods = append(monMethods, dd.Name.Name)
+					}
+					rooted := func(e ast.Expr) bool {
+						for {
+							switch v := e.(type) {
+							case *ast.SelectorExpr:
+								e = v.X
+							case *ast.IndexExpr:
+								e = v.X
+							case *ast.StarExpr:
+								e = v.X
+							case *ast.ParenExpr:
+								e = v.X
+							case *ast.Ident:
+								return v.Name == recv
+							default:
+								return false
+							}
+						}
+					}
+					seen := map[string]bool{}
+					ast.Inspect(dd.Body, func(n ast.Node) bool {
+						switch v := n.(type) {
+						case *ast.AssignStmt:
+							for _, l := range v.Lhs {
+								if _, plain := l.(*ast.Ident); !plain && rooted(l) {
+									recvWrites = append(recvWrites, id.Name+"."+dd.Name.Name+": "+x.src(v))
+								}
+							}
+						case *ast.IncDecStmt:
+							if rooted(v.X) {
+								recvWrites = append(recvWrites, id.Name+"."+dd.Name.Name+": "+x.src(v))
+							}
+						case *ast.SelectorExpr:
+							if rooted(v) {
+								// the longest field path: w.config.TagPrefix, not also w.config
+								seen[x.src(v)] = true
+								return false
+							}
+						}
+						return true
+					})
+					var rs []string
+					for r := range seen {
+						rs = append(rs, r)
+					}
+					sort.Strings(rs)
+					reads[id.Name+"."+dd.Name.Name] = rs
+				}
+			}
+		}
+		sort.Strings(monMethods)
+		sort.Strings(pkgVars)
+		sort.Strings(recvWrites)
+		x.defStrList("monitorMethods", monMethods)
+		x.defStrList("receiverWrites", recvWrites)
+		x.defStrList("packageVars", pkgVars)
+		x.defStrList("makeConfigReads", reads["ServiceMonitor.makeConfig"])
+		x.defStrList("serviceConfigReads", reads["ServiceMonitor.serviceConfig"])
+		x.defStrList("buildReads", reads["routecmd.build"])
 		return nil
 	})
 }
